@@ -46,7 +46,7 @@ int main(int argc, char **argv)
         uint8_t a[400];
         for (int k = 0; k < 3; k++)
                 for (int ci = 0; ci < 4; ci++)
-                        for (int shared = 0; shared < 2; shared++, idx++) {
+                        for (int shared = 0; shared < 3; shared++, idx++) {
                                 if (idx % SW.nshards != SW.shard) continue;
                                 int cap = CAPS[ci];
                                 if (lite && cap == 16) continue;
